@@ -587,12 +587,35 @@ pub fn run(ctx: &Ctx) -> i32 {
             }
         }
     }
+    // every hand-written YAML seed (directives that are used, tags, anchors, merge keys, explicit document ends
+    // with and without a final line break, block scalars with indicators, ...) in every encoding
+    let yaml_seeds: Vec<String> = crate::corpus::seeds().into_iter().filter(|s| s.fmt == Some(Fmt::Yaml)).filter_map(|s| String::from_utf8(s.bytes).ok()).filter(|t| !t.is_empty() && !t.contains('\0') && crate::read::yaml::read_docs(t.as_bytes()).map(|d| !d.is_empty()).unwrap_or(true)).collect();
+    let seed_acc = crate::par::run(yaml_seeds.len(), 4, |i, acc| {
+        let text = &yaml_seeds[i];
+        let starts_ascii = text.chars().next().map(|c| c.is_ascii()).unwrap_or(false);
+        let yaml_detected = xt::verif::detect_slice(text.as_bytes()).ok().flatten().map(Fmt::from_xt) == Some(Fmt::Yaml);
+        acc.count("yaml_seed_texts_in_every_encoding");
+        for enc in ENCS {
+            for bom in [true, false] {
+                if !bom && !starts_ascii {
+                    continue;
+                }
+                for mode in [Mode::Slice, Mode::Reader(Sched::All), Mode::Reader(Sched::Fixed(5))] {
+                    translation_level(text, enc, bom, &mode, false, [Fmt::Json, Fmt::Yaml, Fmt::Msgpack][i % 3], acc);
+                    if yaml_detected {
+                        translation_level(text, enc, bom, &mode, true, Fmt::Json, acc);
+                    }
+                }
+            }
+        }
+    });
+    acc.merge(seed_acc);
     ev::run_isolated("c07-enum", &["--tier".into(), ctx.tier.clone(), "--seed".into(), ctx.seed.to_string()], "exhaustive re-encoder enumeration", &mut acc);
-    let rule = format!("(a) {} generated YAML streams (1-3 documents, hostile scalars, every spelling feature) x one encoding in turn x [BOM, no BOM when the text starts with ASCII] x [slice, reader fixed(1..9), reader random] x [explicit, detected], compared with the same text in UTF-8; texts of tens of KiB with multi-byte characters around the read sizes; 2 texts of more than a million characters (one flow sequence, one quoted scalar) x 4 encodings x [reader whole, reader 64 KiB, slice] x [detected, explicit]; one-character streams; ill-formed units behind 16 384 x k - 8 .. + 2 characters (k = 1..3) x 4 encodings x 3 bad units, at the hook with 4 / 16 / 64 KiB output buffers and through the translation (slice, reader; named, detected); (b) exhaustive at the re-encoder hook: all 63 488 non-surrogate UTF-16 units, all 1 048 576 surrogate pairs, all 1 112 064 UTF-32 scalar values, both byte orders, with/without BOM, every BMP character directly behind and in front of each of 12 special characters (line breaks of every kind, U+FEFF, U+FFFE, NUL, space, quote, backslash, hyphen) in all four encodings, input buffer capacities and output buffer sizes varied ({} variants each), against a std-based reference decoder; ill-formed classes: EVERY ordered pair of surrogate units that is not a well-formed pair (thorough: all 3 145 728; quick: a sixteenth of the first units x all second units), every surrogate value as lone lead / lead+non-trail / lead+lead / lone trail / reversed pair, truncated units, every UTF-32 value in D800..DFFF, values >= 0x110000; distinct non-trivial = distinct texts plus distinct enumeration blocks", n_texts, if ctx.thorough() { 11 } else { 2 });
+    let rule = format!("(a) {} generated YAML streams (1-3 documents, hostile scalars, every spelling feature) x one encoding in turn x [BOM, no BOM when the text starts with ASCII] x [slice, reader fixed(1..9), reader random] x [explicit, detected], compared with the same text in UTF-8; texts of tens of KiB with multi-byte characters around the read sizes; 2 texts of more than a million characters (one flow sequence, one quoted scalar) x 4 encodings x [reader whole, reader 64 KiB, slice] x [detected, explicit]; one-character streams; every hand-written YAML seed text (used %TAG / %YAML directives, tags, anchors and aliases, merge keys, explicit document ends with and without a final line break, block scalars) in all four encodings; ill-formed units behind 16 384 x k - 8 .. + 2 characters (k = 1..3) x 4 encodings x 3 bad units, at the hook with 4 / 16 / 64 KiB output buffers and through the translation (slice, reader; named, detected); (b) exhaustive at the re-encoder hook: all 63 488 non-surrogate UTF-16 units, all 1 048 576 surrogate pairs, all 1 112 064 UTF-32 scalar values, both byte orders, with/without BOM, every BMP character directly behind and in front of each of 12 special characters (line breaks of every kind, U+FEFF, U+FFFE, NUL, space, quote, backslash, hyphen) in all four encodings, input buffer capacities and output buffer sizes varied ({} variants each), against a std-based reference decoder; ill-formed classes: EVERY ordered pair of surrogate units that is not a well-formed pair (thorough: all 3 145 728; quick: a sixteenth of the first units x all second units), every surrogate value as lone lead / lead+non-trail / lead+lead / lone trail / reversed pair, truncated units, every UTF-32 value in D800..DFFF, values >= 0x110000; distinct non-trivial = distinct texts plus distinct enumeration blocks", n_texts, if ctx.thorough() { 11 } else { 2 });
     let mut extra = serde_json::Map::new();
     extra.insert("reencoder_enumeration_complete".into(), json!(true));
     ev::finish(
-        Finish { ctx, level: "exploration", rule, assumptions: vec!["reference decoder: char::decode_utf16 / char::from_u32 from the standard library".into(), "for failing texts only the verdict class and prefix-comparable output are compared (error positions are byte offsets of what the parser saw)".into()], extra, exhaustive: false, min_distinct: 1000, must_reach: vec![("surrogate_pairs_enumerated".into(), 2 * 1_048_576), ("utf32_scalars_enumerated".into(), 2 * 1_112_064), ("illformed_streams".into(), 10000), ("illformed_surrogate_pairs_enumerated".into(), 100000), ("translation_level_slice".into(), 1000), ("ascii_only_texts".into(), 20), ("detected_variants".into(), 500), ("YAML_SLICE_REENCODE_PATH".into(), 500), ("texts_of_more_than_a_million_characters".into(), 8), ("illformed_deep_translation_refused".into(), 1000), ("characters_in_the_context_of_a_special_one".into(), 48 * 63488)] },
+        Finish { ctx, level: "exploration", rule, assumptions: vec!["reference decoder: char::decode_utf16 / char::from_u32 from the standard library".into(), "for failing texts only the verdict class and prefix-comparable output are compared (error positions are byte offsets of what the parser saw)".into()], extra, exhaustive: false, min_distinct: 1000, must_reach: vec![("surrogate_pairs_enumerated".into(), 2 * 1_048_576), ("utf32_scalars_enumerated".into(), 2 * 1_112_064), ("illformed_streams".into(), 10000), ("illformed_surrogate_pairs_enumerated".into(), 100000), ("translation_level_slice".into(), 1000), ("ascii_only_texts".into(), 20), ("detected_variants".into(), 500), ("YAML_SLICE_REENCODE_PATH".into(), 500), ("texts_of_more_than_a_million_characters".into(), 8), ("yaml_seed_texts_in_every_encoding".into(), 100), ("illformed_deep_translation_refused".into(), 1000), ("characters_in_the_context_of_a_special_one".into(), 48 * 63488)] },
         acc,
     )
 }
